@@ -364,7 +364,7 @@ impl Property for P {
         "C06"
     }
     fn rule(&self) -> String {
-        "Long run: 200 000 (thorough 2^24) CONSECUTIVE modified / out-of-sequence deliveries of six kinds on one receiver per AEAD through the public API, every one of which must be rejected. Generated: (sealing suite, mode, session, 1..=3 messages, start position 0 / byte-carry boundary / 2^64-1-d through the hook, optionally 50..400 extra empty-plaintext messages whose every proper prefix and 1-byte extension is tried); swept additionally: the families at positions 2^64-1, 2^64-2, 2^64-3, 255, 2^32, 2^56-1 and 2500 empty messages per AEAD; per message a variant family: every single-bit flip of ct||tag and of aad (exhaustive for <=96 bytes, all tag bits + 256 sampled positions otherwise), every truncation length, extensions by 1..=17 bytes (zeros / pattern / tag copy / prepended), aad emptied/shortened/extended, tag, aad and whole ciphertext substituted from the other messages of the same context; for the detached interfaces also tags with 1..=17 bytes appended/prepended and tags truncated to 0..Nt-1 bytes. \
+        "Long run: 200 000 (thorough 2^22) CONSECUTIVE modified / out-of-sequence deliveries of six kinds on one receiver per AEAD through the public API, every one of which must be rejected. Generated: (sealing suite, mode, session, 1..=3 messages, start position 0 / byte-carry boundary / 2^64-1-d through the hook, optionally 50..400 extra empty-plaintext messages whose every proper prefix and 1-byte extension is tried); swept additionally: the families at positions 2^64-1, 2^64-2, 2^64-3, 255, 2^32, 2^56-1 and 2500 empty messages per AEAD; per message a variant family: every single-bit flip of ct||tag and of aad (exhaustive for <=96 bytes, all tag bits + 256 sampled positions otherwise), every truncation length, extensions by 1..=17 bytes (zeros / pattern / tag copy / prepended), aad emptied/shortened/extended, tag, aad and whole ciphertext substituted from the other messages of the same context; for the detached interfaces also tags with 1..=17 bytes appended/prepended and tags truncated to 0..Nt-1 bytes. \
          Each variant is opened at the right position through open and open_in_place_detached (one receiver repositioned through the hook, every 16th variant on a fresh receiver advanced by honest opens) and, for the first message, through single_shot_open and single_shot_open_in_place_detached. \
          Oracle: every attempt returns Err(OpenError); an in-place failure must not leave the plaintext (>=16 bytes) in the buffer; positive control per message. \
          Non-trivial: a case whose families contain aad flips and a cross-message substitution; evaluations counts cases, inner_oracle_comparisons counts open attempts."
@@ -444,7 +444,7 @@ impl Property for P {
     fn extra(&self, tier: Tier, _seed: u64, x: &mut Extra) {
         // many consecutive rejected deliveries on ONE receiver (public API only): a per-context count
         // of failures is state no case-sized history reaches
-        let n: u64 = tier.pick(200_000, 1 << 24);
+        let n: u64 = tier.pick(200_000, 1 << 22);
         let results: Vec<(AeadId, LongRun)> = std::thread::scope(|sc| {
             let hs: Vec<_> = AeadId::SEALING.into_iter().map(|a| (a, sc.spawn(move || long_rejection_run(a, n)))).collect();
             hs.into_iter().map(|(a, h)| (a, h.join().unwrap_or_else(|_| LongRun::Infra("long run thread died".into())))).collect()
